@@ -167,6 +167,95 @@ SameOut(X, Y) == /\ Len(X) = Len(Y)
                       /\ DOMAIN X[v] = DOMAIN Y[v]
                       /\ \A i \in DOMAIN X[v] : SameFrac(X[v][i], Y[v][i])
 
+(* ====== Part 1b: the same definitions, enumerated over pairs of NEIGHBOURS ========= *)
+(* For networks with many nodes (Trace_Clustering, n > SmallN).  A triple (i; j, h)     *)
+(* contributes to no numerator and no denominator unless j and h are neighbours of i,   *)
+(* so the enumeration may run over the pairs of neighbours of i instead of all pairs of *)
+(* nodes.  On a node triple of a directed network the up-to-8 triangles (up-to-4 pairs  *)
+(* of arcs at i) are the combinations of one arc per side: their number is the product  *)
+(* of the per-side arc counts, the sum of their intensities the product of the per-side *)
+(* sums of cube roots (distributivity).  Nothing here is a formula of the code          *)
+(* (no matrix power, no K(K-1) - 2 diag(A^2)).                                          *)
+(* ClusteringImpl!NbrEnumerationEqualsDefinition: DefN = Def, ZeroCaseN = ZeroCase,     *)
+(* HasTripleN = HasTriple, InputClassN = InputClass on EVERY model input (all MC cfgs). *)
+(* 32-bit: |C| <= 3, d <= 3, n <= 60 dense (or any n with at most ~4*10^6/27 connected  *)
+(* triples in all): largest numerator/denominator 27 * 60 * 118 * 117 = 22 366 800.     *)
+NbU(n, C, i) == {j \in Others(n, i) : C[i][j] # 0}
+NbD(n, C, i) == {j \in Others(n, i) : C[i][j] # 0 \/ C[j][i] # 0}
+DPairsOf(S) == {p \in S \X S : p[1] # p[2]}          \* ordered pairs of distinct members
+UPairsOf(S) == {p \in S \X S : p[1] < p[2]}          \* unordered pairs
+NArcs(C, a, b) == (IF C[a][b] # 0 THEN 1 ELSE 0) + (IF C[b][a] # 0 THEN 1 ELSE 0)
+SArcs(C, a, b) == C[a][b] + C[b][a]                  \* sum of the cube roots of the arcs a-b
+
+NTriplesU(n, C, i) == Cardinality(DPairsOf(NbU(n, C, i)))
+NClosedU(n, C, i) == {p \in DPairsOf(NbU(n, C, i)) : C[p[1]][p[2]] # 0}
+NTriplesD(n, C, i) == Sum(DPairsOf(NbD(n, C, i)), LAMBDA p : NArcs(C, i, p[1]) * NArcs(C, i, p[2]))
+NTriCountD(n, C, i) == Sum(UPairsOf(NbD(n, C, i)),
+                           LAMBDA p : NArcs(C, i, p[1]) * NArcs(C, p[1], p[2]) * NArcs(C, p[2], i))
+NTriSumD(n, C, i) == Sum(UPairsOf(NbD(n, C, i)),
+                         LAMBDA p : SArcs(C, i, p[1]) * SArcs(C, p[1], p[2]) * SArcs(C, p[2], i))
+
+NClustBU(n, C) == [i \in 1..n |-> Frac0(Cardinality(NClosedU(n, C, i)), NTriplesU(n, C, i))]
+NClustWU(n, C, d) ==
+  [i \in 1..n |-> Frac0(Sum(NClosedU(n, C, i), LAMBDA p : IntensityU(C, i, p)),
+                        D3(d) * NTriplesU(n, C, i))]
+NTransBU(n, C) == <<Sum(1..n, LAMBDA i : Cardinality(NClosedU(n, C, i))),
+                    Sum(1..n, LAMBDA i : NTriplesU(n, C, i))>>
+NTransWU(n, C, d) ==
+  <<Sum(1..n, LAMBDA i : Sum(NClosedU(n, C, i), LAMBDA p : IntensityU(C, i, p))),
+    D3(d) * Sum(1..n, LAMBDA i : NTriplesU(n, C, i))>>
+NClustBD(n, C) == [i \in 1..n |-> Frac0(NTriCountD(n, C, i), NTriplesD(n, C, i))]
+NClustWD(n, C, d) == [i \in 1..n |-> Frac0(NTriSumD(n, C, i), D3(d) * NTriplesD(n, C, i))]
+NTransBD(n, C) == <<Sum(1..n, LAMBDA i : NTriCountD(n, C, i)), Sum(1..n, LAMBDA i : NTriplesD(n, C, i))>>
+NTransWD(n, C, d) == <<Sum(1..n, LAMBDA i : NTriSumD(n, C, i)),
+                       D3(d) * Sum(1..n, LAMBDA i : NTriplesD(n, C, i))>>
+NZhNum(n, P, i) ==
+  Sum(DPairsOf(NbU(n, P, i)), LAMBDA p : Cube(P[i][p[1]]) * Cube(P[p[1]][p[2]]) * Cube(P[p[2]][i]))
+NZhDen(n, P, i) ==
+  LET s1 == Sum(NbU(n, P, i), LAMBDA j : Cube(P[i][j]))
+      s2 == Sum(NbU(n, P, i), LAMBDA j : Cube(P[i][j]) * Cube(P[i][j]))
+  IN s1 * s1 - s2
+NClustZhang(n, P, d) == [i \in 1..n |-> Frac0(NZhNum(n, P, i), D3(d) * NZhDen(n, P, i))]
+NCoDen(n, C, i) == Sum(DPairsOf(NbU(n, C, i)), LAMBDA p : Abs(Cube(C[i][p[1]]) * Cube(C[i][p[2]])))
+NClustCostantini(n, C, d) == [i \in 1..n |-> Frac0(NZhNum(n, C, i), D3(d) * NCoDen(n, C, i))]
+
+DefN(fn, n, C, d) ==
+  LET Pos == PosPart(n, C)  Neg == NegPart(n, C) IN
+  CASE fn = FnBU  -> <<NClustBU(n, C)>>
+    [] fn = FnBD  -> <<NClustBD(n, C)>>
+    [] fn = FnWU  -> <<NClustWU(n, C, d)>>
+    [] fn = FnWD  -> <<NClustWD(n, C, d)>>
+    [] fn = FnSD  -> <<NClustWU(n, Pos, d), NClustWU(n, Neg, d)>>
+    [] fn = FnSZ  -> <<NClustZhang(n, Pos, d), NClustZhang(n, Neg, d)>>
+    [] fn = FnSC  -> <<NClustCostantini(n, C, d)>>
+    [] fn = FnTBU -> << <<NTransBU(n, C)>> >>
+    [] fn = FnTBD -> << <<NTransBD(n, C)>> >>
+    [] fn = FnTWU -> << <<NTransWU(n, C, d)>> >>
+    [] fn = FnTWD -> << <<NTransWD(n, C, d)>> >>
+
+(* ZeroCase / OnTriangle / HasTriple / InputClass likewise; P = PartOf(fn, v, n, C)      *)
+OnTriangleN(fn, n, P, i) ==
+  IF fn \in DirectedFns
+  THEN \E p \in UPairsOf(NbD(n, P, i)) : P[p[1]][p[2]] # 0 \/ P[p[2]][p[1]] # 0
+  ELSE \E p \in DPairsOf(NbU(n, P, i)) : P[p[1]][p[2]] # 0
+ZeroCaseN(fn, n, P, i) ==
+  \/ Cardinality(IF fn \in DirectedFns THEN NbD(n, P, i) ELSE NbU(n, P, i)) < 2
+  \/ ~OnTriangleN(fn, n, P, i)
+HasTripleN(fn, n, C) ==
+  \E i \in 1..n : Cardinality(IF fn \in DirectedFns THEN NbD(n, C, i) ELSE NbU(n, C, i)) >= 2
+InputClassN(fn, n, C) ==
+  LET on == {i \in 1..n : OnTriangleN(fn, n, C, i)} IN
+  IF on = {} THEN "triangle_free"
+  ELSE IF on = 1..n THEN "every_node_on_triangle" ELSE "some_node_triangle_free"
+(* one statement of the equivalence (an invariant of ClusteringImpl, an ASSUME of        *)
+(* Trace_Clustering on mid-size instances)                                               *)
+NbrEnumerationAgrees(fn, n, C, d) ==
+  /\ DefN(fn, n, C, d) = Def(fn, n, C, d)
+  /\ \A v \in 1..Len(Def(fn, n, C, d)) : \A i \in 1..n :
+        fn \in PerNodeFns => (ZeroCaseN(fn, n, PartOf(fn, v, n, C), i) <=> ZeroCase(fn, v, n, C, i))
+  /\ HasTripleN(fn, n, C) <=> HasTriple(fn, n, C)
+  /\ InputClassN(fn, n, C) = InputClass(fn, n, C)
+
 (* ============ Part 2: the code's pipelines (bct/algorithms/clustering.py) ========== *)
 MatMul(n, X, Y) == Mat(n, LAMBDA i, j : Sum(1..n, LAMBDA k : X[i][k] * Y[k][j]))
 MatAdd(n, X, Y) == Mat(n, LAMBDA i, j : X[i][j] + Y[i][j])
@@ -222,7 +311,8 @@ StepDir(fn, n, st, k, r) ==
     [] st = "S"    -> Put(r, "S", MatAdd(n, r.W, Transpose(n, r.W)))
                                                            \* A + A.T | cuberoot(W)+cuberoot(W.T)
     [] st = "K"    -> Put(r, "K", RowSum(n, MatAdd(n, A, Transpose(n, A))))
-    [] st = "cyc3" -> Put(r, "cyc3", [i \in 1..n |-> Diag3(n, r.S)[i] \div 2])
+    [] st = "cyc3" -> LET s3 == Force(Diag3(n, r.S)) IN          \* evaluated once, not once per i
+                      Put(r, "cyc3", Force([i \in 1..n |-> s3[i] \div 2]))
     [] st = "mask" -> Put(r, "K", MaskWhereZero(n, r.K, r.cyc3))
     [] st = "CYC3" -> LET a2 == DiagOf(n, MatMul(n, A, A)) IN
                       Put(r, "CYC3", [i \in 1..n |-> SubInf(KKm1(r.K[i]), 2 * a2[i])])
